@@ -20,7 +20,7 @@ import (
 // M2: TLC enumerates every well-typed tree with <= 3 binary operators (plus one / two unary
 //     prefixes on any node) and emits the minimal-parenthesis token string with the expected values
 //     under four environments; each string is evaluated by the real parser + VM.
-// M3: seeded random expressions with 4-6 operators (alternating between the two settings), nested unary prefixes and redundant
+// M3: seeded random expressions with 4-6 operators (alternating between the two settings) and the family p OUTER a ARITH b CMP c INNER q (OUTER, INNER in && ||; 10 arithmetic x 6 comparison operators; 4 nesting / negation shapes; all environments; both settings), nested unary prefixes and redundant
 //     parentheses are evaluated by the real code and the results validated by Trace_GoExpr
 //     (Eval(Parse(tokens)) in the specification).
 
@@ -239,7 +239,7 @@ func (t *c05Tree) toks(parentPrec int, right bool) []string {
 }
 
 func checkC05(c *Ctx) {
-	c.Rule = "M2: every well-typed expression tree over int32 operands a..e and bool operands p..t with <=MaxOps binary operators (10 arithmetic/bit, 6 comparison, && || == != on bools), printed with minimal parentheses, plus every placement of one unary prefix (- ^ !) on any node (and a second prefix on the same node), evaluated under 4 environments with the operands as package-level variables, and (every expression in one environment; quick: every second expression) as parameters of a function that assigns the value before returning it; M3: seeded random expressions with 4-6 operators (alternating between the two settings), nested prefixes and redundant parentheses; distinct_nontrivial = distinct token strings with >=2 binary operators or a unary prefix"
+	c.Rule = "M2: every well-typed expression tree over int32 operands a..e and bool operands p..t with <=MaxOps binary operators (10 arithmetic/bit, 6 comparison, && || == != on bools), printed with minimal parentheses, plus every placement of one unary prefix (- ^ !) on any node (and a second prefix on the same node), evaluated under 4 environments with the operands as package-level variables, and (every expression in one environment; quick: every second expression) as parameters of a function that assigns the value before returning it; M3: seeded random expressions with 4-6 operators (alternating between the two settings) and the family p OUTER a ARITH b CMP c INNER q (OUTER, INNER in && ||; 10 arithmetic x 6 comparison operators; 4 nesting / negation shapes; all environments; both settings), nested prefixes and redundant parentheses; distinct_nontrivial = distinct token strings with >=2 binary operators or a unary prefix"
 	c.Assumptions = []string{"&^ is not a token of goatlang and is outside the enumerated operator set", "environments avoid nothing: division by zero and negative shift counts are expected run-time errors", "TLC evaluates GoExpr.tla/FixedWidth.tla as written; the Go toolchain calibrates a sample of the enumerated expressions"}
 
 	type job struct {
@@ -406,6 +406,52 @@ func checkC05(c *Ctx) {
 		lines = append(lines, map[string]any{"toks": toks, "env": env + 1, "ok": ok, "val": v, "ty": oty, "src": src})
 		c.DistinctCount++
 	}
+	// a systematic family inside M3: short-circuit operators around comparisons of arithmetic, every
+	// nesting side, with and without a negation in front, both settings, every environment
+	nfam := 0
+	for _, outer := range []string{"||", "&&"} {
+		for _, inner := range []string{"&&", "||"} {
+			for ai, arith := range c05IntOps {
+				for ci, cmpOp := range c05CmpOps {
+					if (ai+ci)%c.pick(3, 1) != 0 {
+						continue
+					}
+					for _, shape := range []int{0, 1, 2, 3} {
+						cmpT := []string{"a", arith, "b", cmpOp, "c"}
+						var toks []string
+						switch shape {
+						case 0: // p OUTER a+b<c INNER q   (grouping by precedence)
+							toks = append(append([]string{"p", outer}, cmpT...), inner, "q")
+						case 1: // a+b<c INNER q OUTER p
+							toks = append(append(append([]string{}, cmpT...), inner, "q"), outer, "p")
+						case 2: // p OUTER ( a+b<c INNER q )
+							toks = append(append(append([]string{"p", outer, "("}, cmpT...), inner, "q"), ")")
+						default: // ! ( p OUTER a+b<c INNER q )
+							toks = append(append(append([]string{"!", "(", "p", outer}, cmpT...), inner, "q"), ")")
+						}
+						src := strings.Join(toks, " ")
+						for env := range c05Envs {
+							ok, v, oty, errText := evalGoat(vms[env], src)
+							if (nfam+env)%2 == 1 {
+								ok, v, oty, errText = evalGoatLocals(c05Envs[env], src)
+							}
+							c.Evaluations++
+							if strings.HasPrefix(errText, "PANIC") || (!ok && !strings.HasPrefix(errText, "error in run")) {
+								c.violate(hashKey(src), fmt.Sprintf("expression `%s`: %s", src, firstLine(errText)), map[string]any{"expression": src, "error": errText})
+								continue
+							}
+							if oty == "" {
+								oty = "bool"
+							}
+							lines = append(lines, map[string]any{"toks": toks, "env": env + 1, "ok": ok, "val": v, "ty": oty, "src": src})
+						}
+						nfam++
+					}
+				}
+			}
+		}
+	}
+	c.Extra["short_circuit_family_expressions"] = nfam
 	bad := classifySharded(c, "Trace_GoExpr", "Trace_GoExpr.cfg", lines, c.Workers)
 	for _, idx := range bad {
 		l := lines[idx]
